@@ -303,6 +303,14 @@ def main():
         print(__doc__)
         sys.exit(2)
     prop = args[0]
+    if prop == "--setup":
+        b = build_all(None)
+        ok = b["harness_ok"] and b["model_ok"] and b["translator_ok"] and not b["coq_failed"]
+        print("setup: translator=%s coq_failed=%s model=%s harness=%s (%.1fs)" % (
+            b["translator_ok"], b["coq_failed"], b["model_ok"], b["harness_ok"], b.get("build_s", 0)))
+        if not ok:
+            print(b.get("coq_errors", ""), b.get("model_msg", ""), b.get("harness_msg", ""), b.get("translator_msg", ""))
+        sys.exit(0 if ok else 1)
     tier = os.environ.get("VERIF_TIER", "quick")
     replay = None
     i = 1
